@@ -184,14 +184,23 @@ type vfCut struct {
 	Wait   bool `json:"wait"`   // then wait for the relay's own redial (PersistentRemoteSuperiorRetryInterval, 30 s) before going on
 }
 
+// vfStopEv stops one collector (a local one, or one behind the relay) at a generated moment of the history.
+type vfStopEv struct {
+	After  int  `json:"after"`  // index of the task at which the collector is stopped
+	During bool `json:"during"` // while that (quality) task is current instead of after it completed
+	Remote bool `json:"remote"` // a collector behind the relay instead of a directly connected one
+	Which  int  `json:"which"`
+}
+
 type vfC17Case struct {
-	Cut     *vfCut   `json:"cut,omitempty"`
-	NLocal  int      `json:"nlocal"`
-	Relay   bool     `json:"relay"`
-	NRemote int      `json:"nremote"`
-	NQ      int      `json:"nq"` // qualities per keeper answer
-	Tasks   []vfTask `json:"tasks"`
-	Stop    []string `json:"stop"` // order in which the parts are stopped at the end
+	StopColl *vfStopEv `json:"stopColl,omitempty"`
+	Cut      *vfCut    `json:"cut,omitempty"`
+	NLocal   int       `json:"nlocal"`
+	Relay    bool      `json:"relay"`
+	NRemote  int       `json:"nremote"`
+	NQ       int       `json:"nq"` // qualities per keeper answer
+	Tasks    []vfTask  `json:"tasks"`
+	Stop     []string  `json:"stop"` // order in which the parts are stopped at the end
 }
 
 func vfGenC17(t *rapid.T) vfC17Case {
@@ -208,6 +217,10 @@ func vfGenC17(t *rapid.T) vfC17Case {
 			Read: rapid.SampledFrom([]int{0, 0, 1, 3, 99}).Draw(t, "read"), LateSub: rapid.IntRange(0, 3).Draw(t, "late") == 0, RemoveTwice: rapid.Bool().Draw(t, "twice")})
 	}
 	c.Stop = rapid.Permutation([]string{"collectors", "relay", "pool"}).Draw(t, "stop")
+	if rapid.IntRange(0, 2).Draw(t, "stopColl") == 0 {
+		c.StopColl = &vfStopEv{After: rapid.IntRange(0, len(c.Tasks)-1).Draw(t, "stopAfter"), During: rapid.Bool().Draw(t, "stopDuring"),
+			Remote: c.Relay && rapid.Bool().Draw(t, "stopRemote"), Which: rapid.IntRange(0, 3).Draw(t, "stopWhich")}
+	}
 	if c.Relay && rapid.IntRange(0, 1).Draw(t, "cut") == 0 {
 		c.Cut = &vfCut{After: rapid.IntRange(0, len(c.Tasks)-1).Draw(t, "cutAfter"), During: rapid.Bool().Draw(t, "cutDuring"), Wait: rapid.IntRange(0, 3).Draw(t, "cutWait") == 0}
 		if c.Cut.Wait && c.Cut.After == len(c.Tasks)-1 {
@@ -292,6 +305,7 @@ type vfLocal struct {
 	lc     *LocalCollector
 	cancel context.CancelFunc
 	k      *vfKeeper
+	dead   bool // stopped by a generated event
 }
 
 func vfStopWithWatchdog(what string, f func()) *vlib.Failure {
@@ -323,7 +337,7 @@ func vfC17Run(c vfC17Case, ctx *vlib.Ctx) *vlib.Failure {
 	for i := 0; i < c.NLocal; i++ {
 		k := newVfKeeper(i, c.NQ)
 		lc, cancel := NewLocalCollector(bg, ls, k)
-		locals = append(locals, &vfLocal{lc, cancel, k})
+		locals = append(locals, &vfLocal{lc: lc, cancel: cancel, k: k})
 		keepers = append(keepers, k)
 	}
 	// relay: pool on the superior, a persistent remote superior dialling it, collectors behind that
@@ -352,7 +366,7 @@ func vfC17Run(c vfC17Case, ctx *vlib.Ctx) *vlib.Failure {
 		for i := 0; i < c.NRemote; i++ {
 			k := newVfKeeper(10+i, c.NQ)
 			lc, cancel := NewLocalCollector(bg, prs, k)
-			remotes = append(remotes, &vfLocal{lc, cancel, k})
+			remotes = append(remotes, &vfLocal{lc: lc, cancel: cancel, k: k})
 			keepers = append(keepers, k)
 		}
 		// the collectors behind the relay subscribe in their own goroutines: wait until the relay knows them all
@@ -398,6 +412,8 @@ func vfC17Run(c vfC17Case, ctx *vlib.Ctx) *vlib.Failure {
 	nowSlot := uint64(time.Now().Unix()) / pocSlot
 	inFlightRemove, manyReports := false, false
 	relayUp := c.Relay
+	stopDone := false
+	deadKeeper := map[int]bool{}
 	cutDone := false
 	cutSeen := false // the pool dropped the relay's collector after the cut
 	var cutAt time.Time
@@ -475,14 +491,48 @@ func vfC17Run(c vfC17Case, ctx *vlib.Ctx) *vlib.Failure {
 		}
 		var targets []tgt
 		for _, l := range locals {
-			targets = append(targets, tgt{l.lc.ID(), []*vfKeeper{l.k}, false})
+			if !l.dead {
+				targets = append(targets, tgt{l.lc.ID(), []*vfKeeper{l.k}, false})
+			}
 		}
 		if c.Relay && relayUp {
 			var ks []*vfKeeper
 			for _, r := range remotes {
-				ks = append(ks, r.k)
+				if !r.dead {
+					ks = append(ks, r.k)
+				}
 			}
-			targets = append(targets, tgt{relayID, ks, true})
+			if len(ks) > 0 {
+				targets = append(targets, tgt{relayID, ks, true})
+			}
+		}
+		// a generated stop of one collector
+		stopNow := c.StopColl != nil && !stopDone && c.StopColl.After == ti
+		stoppedDuringThis := -1 // keeper index
+		doStop := func() *vlib.Failure {
+			stopDone = true
+			pool := locals
+			if c.StopColl.Remote {
+				pool = remotes
+			}
+			var alive []*vfLocal
+			for _, l := range pool {
+				if !l.dead {
+					alive = append(alive, l)
+				}
+			}
+			if len(alive) == 0 {
+				return nil
+			}
+			l := alive[c.StopColl.Which%len(alive)]
+			if f := vfStopWithWatchdog("collector", func() { l.cancel() }); f != nil {
+				return f
+			}
+			l.dead = true
+			deadKeeper[l.k.idx] = true
+			stoppedDuringThis = l.k.idx
+			ctx.Label("collector-stopped-mid-history")
+			return nil
 		}
 		cutNow := c.Cut != nil && !cutDone && c.Cut.After == ti
 		cutDuringThis := false
@@ -570,6 +620,11 @@ func vfC17Run(c vfC17Case, ctx *vlib.Ctx) *vlib.Failure {
 			id := uuid.New()
 			req := &protocol.RequestQualities{TaskID: id, Challenge: ch, ParentTarget: bigOne(), ParentSlot: nowSlot - 1, Height: 7}
 			rch := ls.AddTask(bg, uuid.Nil, req)
+			if stopNow && c.StopColl.During {
+				if f := doStop(); f != nil {
+					return f
+				}
+			}
 			if cutNow && c.Cut.During {
 				cutDuringThis = true
 				if f := doCut(where); f != nil {
@@ -579,7 +634,7 @@ func vfC17Run(c vfC17Case, ctx *vlib.Ctx) *vlib.Failure {
 			if task.LateSub {
 				k := newVfKeeper(50+ti, c.NQ)
 				lc, cancel := NewLocalCollector(bg, ls, k)
-				l := &vfLocal{lc, cancel, k}
+				l := &vfLocal{lc: lc, cancel: cancel, k: k}
 				lateLocals = append(lateLocals, l)
 			}
 			// the waiter reads task.Read reports within the first collector tick(s), then leaves
@@ -659,7 +714,15 @@ func vfC17Run(c vfC17Case, ctx *vlib.Ctx) *vlib.Failure {
 					var out []uuid.UUID
 					for _, tg := range targets {
 						if !seen[tg.id] {
-							out = append(out, tg.id)
+							allDead := true
+							for _, k := range tg.keepers {
+								if !deadKeeper[k.idx] {
+									allDead = false
+								}
+							}
+							if !allDead {
+								out = append(out, tg.id)
+							}
 						}
 					}
 					return out
@@ -692,7 +755,18 @@ func vfC17Run(c vfC17Case, ctx *vlib.Ctx) *vlib.Failure {
 				}
 			}
 			stayedConnected := 0 // collectors that were connected for the whole task
+			aliveKeeper := func(tg tgt) *vfKeeper {
+				for _, k := range tg.keepers {
+					if !deadKeeper[k.idx] {
+						return k
+					}
+				}
+				return nil
+			}
 			for _, tg := range targets {
+				if aliveKeeper(tg) == nil {
+					continue // its collector(s) were stopped during this task
+				}
 				if !tg.behind || (relayUp && !cutDuringThis) {
 					stayedConnected++
 				}
@@ -723,6 +797,13 @@ func vfC17Run(c vfC17Case, ctx *vlib.Ctx) *vlib.Failure {
 				k.mu.Lock()
 				n := k.qualityCalls[ch]
 				k.mu.Unlock()
+				if deadKeeper[k.idx] {
+					// its collector was stopped before or during this task: asked at most once
+					if n > 1 {
+						return vlib.Failf("broadcast-not-exactly-once", "%s: keeper %d (collector stopped) was asked %d times", where, k.idx, n)
+					}
+					continue
+				}
 				if k.idx >= 10 && k.idx < 50 && (cutDuringThis || !relayUp) {
 					// behind the relay whose uplink was down for (part of) this task: not asked, or asked once; when the
 					// relay came back while the task was still current it is handed the current task again
@@ -772,12 +853,15 @@ func vfC17Run(c vfC17Case, ctx *vlib.Ctx) *vlib.Failure {
 					}
 					targets[i].id = relayID // possibly a new connection after a redial
 				}
+				if aliveKeeper(targets[i]) == nil {
+					continue // stopped during this task
+				}
 				later = &targets[i]
 				break
 			}
 			if later != nil {
 				tg := *later
-				kp := tg.keepers[0]
+				kp := aliveKeeper(tg)
 				var ch2 pocutil.Hash
 				copy(ch2[:], ch[:])
 				ch2[31] = 0xaa
@@ -801,12 +885,21 @@ func vfC17Run(c vfC17Case, ctx *vlib.Ctx) *vlib.Failure {
 				return f
 			}
 		}
+		if stopNow && !stopDone {
+			if f := doStop(); f != nil {
+				return f
+			}
+		}
+		_ = stoppedDuringThis
 	}
 	// ---- stops, in generated order
 	_ = cutDone
 	stopLocals := func() *vlib.Failure {
 		for _, l := range append(append(append([]*vfLocal{}, locals...), remotes...), lateLocals...) {
 			l := l
+			if l.dead {
+				continue
+			}
 			if f := vfStopWithWatchdog("collector", func() { l.cancel() }); f != nil {
 				return f
 			}
@@ -839,7 +932,7 @@ func vfC17Run(c vfC17Case, ctx *vlib.Ctx) *vlib.Failure {
 	if c.Relay {
 		ctx.Label("relay")
 	}
-	if (len(keepers) >= 2 && c.Relay) || inFlightRemove || manyReports || c.Cut != nil {
+	if (len(keepers) >= 2 && c.Relay) || inFlightRemove || manyReports || c.Cut != nil || c.StopColl != nil {
 		ctx.NonTrivial()
 	}
 	return nil
@@ -859,7 +952,7 @@ func vfBlockedFractal(sig, msg string) *vlib.Failure {
 
 var vfC17Spec = vlib.Spec[vfC17Case]{
 	Prop: "C17", Name: "topology-histories", NoShrink: true,
-	Rule: "topologies of a LocalSuperior with 0-4 local collectors and optionally a CollectorPool (127.0.0.1:0) + PersistentRemoteSuperior relay with 1-3 collectors behind it, each collector on a scripted keeper; histories of 1-4 tasks (broadcast quality task with a waiter that reads 0/1/3/all reports and then leaves, targeted proof task, targeted signature task, late subscriber, RemoveTask once or twice), the relay's uplink (through a TCP forwarder) cut after or during a generated task, optionally followed by waiting for the relay's own redial (30 s) and further tasks through it, stops in generated order; oracles: targeted tasks are served exactly once by the target only, reports arrive on the channel of the task they name, tagged with the collector they came through, with the content the scripted keeper produced; every collector is asked exactly once per broadcast; RemoveTask and every stop return (verdict with goroutine stacks), a later task still completes; non-trivial = >=2 keepers with a relay, or a remove while reports are in flight, or >10 reports for one task; distinct = distinct case JSON",
+	Rule: "topologies of a LocalSuperior with 0-4 local collectors and optionally a CollectorPool (127.0.0.1:0) + PersistentRemoteSuperior relay with 1-3 collectors behind it, each collector on a scripted keeper; histories of 1-4 tasks (broadcast quality task with a waiter that reads 0/1/3/all reports and then leaves, targeted proof task, targeted signature task, late subscriber, RemoveTask once or twice), one collector (local or behind the relay) stopped after or during a generated task, the relay's uplink (through a TCP forwarder) cut after or during a generated task, optionally followed by waiting for the relay's own redial (30 s) and further tasks through it, stops in generated order; oracles: targeted tasks are served exactly once by the target only, reports arrive on the channel of the task they name, tagged with the collector they came through, with the content the scripted keeper produced; every collector is asked exactly once per broadcast; RemoveTask and every stop return (verdict with goroutine stacks), a later task still completes; non-trivial = >=2 keepers with a relay, or a remove while reports are in flight, or >10 reports for one task; distinct = distinct case JSON",
 	Gen:  vfGenC17, Run: vfC17Run,
 }
 
